@@ -266,65 +266,113 @@ func (c *c17Client) PublishDiagnostics(context.Context, *lsp.PublishDiagnosticsP
 
 func c17Sessions(e *emitter, seed uint64) {
 	r := &rng{s: seed ^ 0x5e55}
-	const uri = lsp.DocumentURI("file:///work/hello.templ")
 	base := "package main\n\ntempl hello(name string) {\n\t<div>{ name }</div>\n}\n"
 	texts := []string{"X", "ab\ncd", "", "\n", "Hello, ", "<span>", "// c\n"}
-	for s := 0; s < 40; s++ {
+	// documents that are open at the same time: distinct files, also when their URIs differ in letter case only
+	uriSets := [][]lsp.DocumentURI{
+		{"file:///work/hello.templ"},
+		{"file:///work/ui/Card.templ", "file:///work/ui/card.templ"},
+		{"file:///work/Admin/page.templ", "file:///work/admin/page.templ", "file:///work/admin/Page.templ"},
+		{"file:///c%3A/work/a.templ", "file:///C%3A/work/a.templ"},
+	}
+	type odoc struct {
+		uri     lsp.DocumentURI
+		doc0    string
+		cur     string
+		cs      []c17Change
+		version int32
+		open    bool
+	}
+	for s := 0; s < 60; s++ {
 		srv := proxy.NewServer(quietLog, &c17Target{}, proxy.NewSourceMapCache(), proxy.NewDiagnosticCache(), true)
 		ctx := lsp.WithClient(context.Background(), &c17Client{})
 		for sub := 0; sub < 1+r.intn(3); sub++ {
-			doc0 := base
-			if r.chance(1, 3) {
-				doc0 = "package p\n\ntempl t() {\n\t<p>x</p>\n}\n"
+			uris := uriSets[0]
+			if r.chance(1, 2) {
+				uris = uriSets[1+r.intn(len(uriSets)-1)]
 			}
 			failed := ""
-			if p, msg := safely(func() {
-				if err := srv.DidOpen(ctx, &lsp.DidOpenTextDocumentParams{TextDocument: lsp.TextDocumentItem{URI: uri, LanguageID: "templ", Version: 1, Text: doc0}}); err != nil {
-					failed = "DidOpen: " + err.Error()
+			var docs []*odoc
+			for _, u := range uris {
+				d := &odoc{uri: u, doc0: base, version: 1, open: true}
+				if r.chance(1, 3) {
+					d.doc0 = "package p\n\ntempl t() {\n\t<p>" + string(u[len(u)-9:]) + "</p>\n}\n"
 				}
-			}); p {
-				failed = fmt.Sprint("DidOpen panicked: ", msg)
+				d.cur = d.doc0
+				docs = append(docs, d)
+				if p, msg := safely(func() {
+					if err := srv.DidOpen(ctx, &lsp.DidOpenTextDocumentParams{TextDocument: lsp.TextDocumentItem{URI: u, LanguageID: "templ", Version: 1, Text: d.doc0}}); err != nil {
+						failed = "DidOpen: " + err.Error()
+					}
+				}); p {
+					failed = fmt.Sprint("DidOpen panicked: ", msg)
+				}
 			}
-			var cs []c17Change
-			cur := doc0
-			version := int32(1)
-			for k := 1 + r.intn(5); k > 0 && failed == ""; k-- {
-				lines := strings.Split(cur, "\n")
-				l0 := r.intn(len(lines))
-				c0 := r.intn(len(lines[l0]) + 1)
-				l1 := l0 + r.intn(len(lines)-l0)
-				c1 := r.intn(len(lines[l1]) + 1)
-				if l1 == l0 && c1 < c0 {
-					c1 = c0
+			for k := 1 + r.intn(6); k > 0 && failed == ""; k-- {
+				d := docs[r.intn(len(docs))]
+				if !d.open {
+					continue
 				}
-				var rg *[4]uint32
-				if !r.chance(1, 6) {
-					rg = &[4]uint32{uint32(l0), uint32(c0), uint32(l1), uint32(c1)}
+				// one notification carries one to three changes, each relative to the text left by the one before it
+				var batch []lsp.TextDocumentContentChangeEvent
+				for b := 1 + r.intn(3); b > 0; b-- {
+					lines := strings.Split(d.cur, "\n")
+					l0 := r.intn(len(lines))
+					c0 := r.intn(len(lines[l0]) + 1)
+					l1 := l0 + r.intn(len(lines)-l0)
+					c1 := r.intn(len(lines[l1]) + 1)
+					if l1 == l0 && c1 < c0 {
+						c1 = c0
+					}
+					var rg *[4]uint32
+					if !r.chance(1, 6) {
+						rg = &[4]uint32{uint32(l0), uint32(c0), uint32(l1), uint32(c1)}
+					}
+					text := r.pick(texts)
+					d.cs = append(d.cs, c17Change{rg, text})
+					d.cur = c17Apply(d.cur, rg, text) // only to keep later ranges inside the document
+					batch = append(batch, lsp.TextDocumentContentChangeEvent{Range: lspRange(rg), Text: text})
 				}
-				text := r.pick(texts)
-				cs = append(cs, c17Change{rg, text})
-				cur = c17Apply(cur, rg, text) // only to keep later ranges inside the document
-				version++
+				d.version++
 				if p, msg := safely(func() {
 					if err := srv.DidChange(ctx, &lsp.DidChangeTextDocumentParams{
-						TextDocument:   lsp.VersionedTextDocumentIdentifier{TextDocumentIdentifier: lsp.TextDocumentIdentifier{URI: uri}, Version: version},
-						ContentChanges: []lsp.TextDocumentContentChangeEvent{{Range: lspRange(rg), Text: text}},
+						TextDocument:   lsp.VersionedTextDocumentIdentifier{TextDocumentIdentifier: lsp.TextDocumentIdentifier{URI: d.uri}, Version: d.version},
+						ContentChanges: batch,
 					}); err != nil {
 						failed = "DidChange: " + err.Error()
 					}
 				}); p {
 					failed = fmt.Sprint("DidChange panicked: ", msg)
 				}
-			}
-			out := "PANIC"
-			if failed == "" {
-				if d, ok := srv.TemplSource.Get(string(uri)); ok {
-					out = hx(d.String())
+				// closing one document leaves the others as they are
+				if len(docs) > 1 && r.chance(1, 8) {
+					c := docs[r.intn(len(docs))]
+					if c.open && c != d {
+						out := "PANIC"
+						if dd, ok := srv.TemplSource.Get(string(c.uri)); ok {
+							out = hx(dd.String())
+						}
+						enc := c17EncChanges(c.cs)
+						e.emit(fmt.Sprintf("session %d %d %s %s %s", s, sub, c.uri, hx(c.doc0), enc), "hist", hx(c.doc0), enc, out)
+						_ = srv.DidClose(ctx, &lsp.DidCloseTextDocumentParams{TextDocument: lsp.TextDocumentIdentifier{URI: c.uri}})
+						c.open = false
+					}
 				}
 			}
-			enc := c17EncChanges(cs)
-			e.emit(fmt.Sprintf("session %d %d %s %s", s, sub, hx(doc0), enc), "hist", hx(doc0), enc, out)
-			_ = srv.DidClose(ctx, &lsp.DidCloseTextDocumentParams{TextDocument: lsp.TextDocumentIdentifier{URI: uri}})
+			for _, d := range docs {
+				if !d.open {
+					continue
+				}
+				out := "PANIC"
+				if failed == "" {
+					if dd, ok := srv.TemplSource.Get(string(d.uri)); ok {
+						out = hx(dd.String())
+					}
+				}
+				enc := c17EncChanges(d.cs)
+				e.emit(fmt.Sprintf("session %d %d %s %s %s", s, sub, d.uri, hx(d.doc0), enc), "hist", hx(d.doc0), enc, out)
+				_ = srv.DidClose(ctx, &lsp.DidCloseTextDocumentParams{TextDocument: lsp.TextDocumentIdentifier{URI: d.uri}})
+			}
 		}
 	}
 }
